@@ -13,13 +13,13 @@ import (
 
 var urlHosts = []string{"example.com", "git.example.com", "sub.example.co.uk", "example.com:8443", "127.0.0.1", "[::1]", "[2001:db8::1]:443",
 	"localhost", "Example.COM", "xn--eckwd4c7c.example.com", "テラフォーム.example.com", "a-b.example.com", "example.com."}
-var plainHosts = []string{"example.com", "git.example.com", "sub.example.co.uk", "example.com:8443", "127.0.0.1", "localhost", "a-b.example.com"}
+var plainHosts = []string{"example.com", "git.example.com", "sub.example.co.uk", "example.com:8443", "127.0.0.1", "localhost", "a-b.example.com", "[2001:db8::1]:8443", "[::1]"}
 var registryHosts = []string{"", "", "example.com", "terraform.example.com", "テラフォーム.example.com", "example.com:8443", "registry.terraform.io", "Example.COM", "app.terraform.io"}
 
 var plainSegs = []string{"repo", "org", "my-repo", "mod_v2", "a.b", "x~y", "go-slug", "hashicorp", "v1", "1"}
 var oddSegs = []string{"with space", "üni", "per%20cent", "plus+", "at@", "colon:", "semi;", "eq=", "amp&", "hash#", "q?", "%2F", "%2F%2F", "%2e%2e", "..", ".", "", "a//b", "star*", "quote\"", "back\\slash", "%", "%zz", " ", "tab\t"}
 var subSegs = []string{"modules", "vpc", "a", "b", "examples", "x.tf", "sub-dir", "v2", "m_1"}
-var oddSubSegs = []string{"..shared", "...", ".hidden", "..", "line\nbreak", "cr\rlf", "with space", "üni", "per%20cent", "plus+", "at@v1", "colon:", "hash#frag", "q?x", "%2F", "..", ".", "", "@", "a@1.0.0", "star*", "semi;", "%", "~", "back\\slash"}
+var oddSubSegs = []string{"..shared", "...", ".hidden", "..", "line\nbreak", "cr\rlf", "sub{xff}net", "with space", "üni", "per%20cent", "plus+", "at@v1", "colon:", "hash#frag", "q?x", "%2F", "..", ".", "", "@", "a@1.0.0", "star*", "semi;", "%", "~", "back\\slash"}
 var names = []string{"hashicorp", "subnets", "cidr", "aws", "my-ns", "mod_1", "A", "a1", "x-y_z"}
 var systems = []string{"aws", "azurerm", "cidr", "null", "a1", "k8s"}
 var versions = []string{"1.0.0", "0.1.2", "2.10.3", "1.0.0-beta1", "1.2.3+build5", "0.0.1", "10.20.30", "1.0.0-rc.1+meta"}
@@ -40,6 +40,10 @@ func segs(t *rapid.T, label string, pool, odd []string, oddPct, min, max int) []
 
 // Valid draws a string from the documented grammar of accepted addresses
 // (unreserved characters only). kind: local | registry | registryfinal | git | archive | shorthand.
+// Raw renders the placeholder "{xff}" as the byte 0xff (not valid UTF-8), so that
+// cases with such names stay serialisable; only checks that want the raw byte call it.
+func Raw(s string) string { return strings.ReplaceAll(s, "{xff}", "\xff") }
+
 func Valid(t *rapid.T, kind string) string {
 	sub := ""
 	if rapid.IntRange(0, 2).Draw(t, "sub?") > 0 {
@@ -101,7 +105,7 @@ func Valid(t *rapid.T, kind string) string {
 			s += "download" + sub + "?" + rapid.SampledFrom([]string{"archive=tgz", "archive=tar.gz", "archive=tar%2Egz", "%61rchive=tar.gz", "myarchive=tar.gz&archive=tar.gz",
 				"archive=tar.gz&v=tar.gz", "x=archive=tar.gz&archive=tar.gz", "archive=tgz&tag=archive=tar.gz"}).Draw(t, "archive")
 		default:
-			s += "pkg.tgz" + sub + "?" + rapid.SampledFrom([]string{"token=abc", "v=1&w=2", "something=anything", "mirror=https://cdn.example.net/pkg.tgz", "next=//x"}).Draw(t, "q")
+			s += "pkg.tgz" + sub + "?" + rapid.SampledFrom([]string{"token=abc", "v=1&w=2", "something=anything", "mirror=https://cdn.example.net/pkg.tgz", "next=//x", "sig=ab::cd"}).Draw(t, "q")
 		}
 		if rapid.IntRange(0, 5).Draw(t, "httptype") == 0 {
 			s = "http::" + s
